@@ -5,7 +5,7 @@
 EXTENDS Dispatch, Json
 CONSTANTS NEns,      \* conformers of the ensemble object
           NXk, NMk,  \* frames / molecules of the multi-record xyz and mol2 documents
-          NCdx,      \* fragments of the cdxml document
+          NCdx, NCdx2, \* fragments of the two cdxml documents
           NXh        \* frames of the generated heterogeneous multi-xyz document (thorough)
 
 ObjsM  == [mol |-> [kind |-> "Molecule", recs |-> 1, cid |-> "A"],
@@ -16,12 +16,14 @@ DocsQ  == [x1   |-> [fmt |-> "xyz",   suffix |-> "xyz",   n |-> 1,    hom |-> TR
            m1   |-> [fmt |-> "mol2",  suffix |-> "mol2",  n |-> 1,    hom |-> TRUE],
            mk   |-> [fmt |-> "mol2",  suffix |-> "mol2",  n |-> NMk,  hom |-> TRUE],
            c1   |-> [fmt |-> "cdxml", suffix |-> "cdxml", n |-> NCdx, hom |-> FALSE],
+           c2   |-> [fmt |-> "cdxml", suffix |-> "cdxml", n |-> NCdx2, hom |-> FALSE],   \* another drawing, other keys
            u    |-> [fmt |-> "sdf",   suffix |-> "sdf",   n |-> 1,    hom |-> TRUE]]    \* a format only openbabel reads
 DocsT  == DocsQ @@ [xh |-> [fmt |-> "xyz",  suffix |-> "xyz",  n |-> NXh, hom |-> FALSE],   \* several different molecules
                     mh |-> [fmt |-> "mol2", suffix |-> "sdf",  n |-> NXh, hom |-> FALSE]]
 PathsM == [pxyz |-> "xyz", psdf |-> "sdf"]
 PathsT == [pxyz |-> "xyz", pmol2 |-> "mol2", psdf |-> "sdf"]
 StreamsM == {"s"}
+SrcsM  == [sxyz |-> "xyz", smol2 |-> "mol2", scdxml |-> "cdxml", ssdf |-> "sdf", szzz |-> "zzz"]
 
 DevNone == {}
 DevLoadsAll == {"LoadsAllSingle"}
@@ -31,8 +33,9 @@ DevError    == {"UnsupportedIsOtherError"}
 DevClosed   == {"StreamClosedAfterDump"}
 DevRaises   == {"StreamDumpRaises"}
 DevMode     == {"DefaultModeReplaces"}
+DevStale    == {"StaleSourceCache"}
 
-Obs  == [files |-> files, streams |-> streams]
+Obs  == [files |-> files, streams |-> streams, srcs |-> srcs]
 View == sv
 Emit == PrintT(ToJson([from |-> sv, act |-> last', to |-> IF sv' = sv THEN "=" ELSE sv', obs |-> IF sv' = sv THEN "=" ELSE Obs']))
 =============================================================================
